@@ -132,7 +132,7 @@ def conformance(search, limit, run):
 
     def one(tr):
         data = b''.join((c[1][1] if isinstance(c[1][1], bytes) else c[1][1].encode('latin-1')) for c in tr)
-        rc, out, err, ok = e3.run_stream(conf, [data], b=search.b)
+        rc, out, err, ok = e3.run_stream(conf, [data], b=search.b, timeout=20.0)
         want = list(search.banner)
         for _, _, o in tr:
             want += o
@@ -141,10 +141,13 @@ def conformance(search, limit, run):
     bad = []
     n = 0
     with ThreadPoolExecutor(12) as ex:
-        for rc, out, want, err, tr in ex.map(one, todo):
-            n += 1
-            if rc != 0 or out != want:
-                bad.append((rc, out, want, err[-600:], [proto.ev_str(c[0]) for c in tr]))
+        for k in range(0, len(todo), 24):
+            for rc, out, want, err, tr in ex.map(one, todo[k:k + 24]):
+                n += 1
+                if rc != 0 or out != want:
+                    bad.append((rc, out, want, err[-600:], [proto.ev_str(c[0]) for c in tr]))
+            if len(bad) >= 3:
+                break       # (a daemon that does not even leave at end of input makes every replay wait for its time limit)
     if bad:
         rc, out, want, err, h = bad[0]
         raise common.HarnessError('conformance: the unmodified daemon fed the same history disagrees with E1 (%d of %d traces); first: %s\n rc=%s\n E3: %r\n E1: %r\n %s'
@@ -165,6 +168,7 @@ def run_plan(pid, tier, plan, prefixes, need_witnesses=(), crash_is_violation=Fa
     except RuntimeError as e:
         raise common.HarnessError(str(e))
     pre = pre_cov(run) if pre_cov else {}      # cheap enumerations first: a long search must not starve them of time
+    deferred = []
     tot_states = tot_trans = tot_conf = 0
     per = []
     witnesses = set()
@@ -207,8 +211,13 @@ def run_plan(pid, tier, plan, prefixes, need_witnesses=(), crash_is_violation=Fa
                     run.violation(tag, '[%s] %s' % (label, text), rep, dedup=label + '|merge|' + tag)
         nconf = 0
         if conformance_limit and not run.out_of_time(20):
-            nconf = conformance(s, conformance_limit, run)
-            tot_conf += nconf
+            try:
+                nconf = conformance(s, conformance_limit, run)
+                tot_conf += nconf
+            except common.HarnessError as e:
+                # the daemon in its real event loop disagrees with the fork-server engine: nothing E1 found can be trusted - but the remaining stages that
+                # drive the unmodified daemon themselves still run, and if they find a violation that is what gets reported
+                deferred.append(e)
         if post:
             post(run, s, label)
         per.append({'search': label, 'states': len(s.states), 'transitions': s.transitions, 'fixpoint': s.complete, 'levels': s.levels_done,
@@ -231,6 +240,10 @@ def run_plan(pid, tier, plan, prefixes, need_witnesses=(), crash_is_violation=Fa
     cov.update(pre)
     if extra_cov:
         cov.update(extra_cov(run) if callable(extra_cov) else extra_cov)
+    if deferred and not run.violations:
+        raise deferred[0]
+    if deferred:
+        run.cap('conformance replays disagreed (%s); reported are the violations found by stages that drive the unmodified daemon' % str(deferred[0])[:200])
     return run.finish(cov, assumptions=list(assumptions) + [
         'libevent, libc and the dynamic loader are trusted; calling the read handler directly equals what the event loop does (checked by the conformance replays)',
         'field contents come from a fixed menu per client id; alphabets and budgets as listed per search'])
